@@ -46,7 +46,7 @@ REAL_VS_STUB = {
 }
 EXPECTED_PROBES = ('is_leaf', 'flatten_func', 'unflatten_func', 'map_fn', 'key.__hash__', 'key.__lt__', 'key.__eq__',
                    'meta.__ne__', 'meta.__repr__', 'f_node', 'f_leaf', 'leaves.__next__',
-                   'children.__next__', 'nt.__new__', 'dc.__post_init__', 'tstate-ledger:on') + tuple('op:' + n for n in OP_NAMES)
+                   'children.__next__', 'nt.__new__', 'dc.__post_init__', 'entry.__post_init__', 'tstate-ledger:on', 'success-ledger') + tuple('op:' + n for n in OP_NAMES)
 # (metadata __eq__ / __hash__ are not in the list: the engine compares custom metadata with `!=` only
 #  (richcomparison.cpp) and deliberately does not hash it (hashing.cpp:42), so those two can never fire)
 
